@@ -757,7 +757,7 @@ impl Property for C14 {
     }
     fn families(&self, tier: Tier) -> Vec<Family<Case>> {
         vec![
-            Family::random("expressions", tier.n(12_000, 100_000), fam_exprs),
+            Family::random("expressions", tier.n(12_000, 300_000), fam_exprs),
             Family::random("once-ness", tier.n(6_000, 30_000), fam_once),
             Family::random("malformed", tier.n(10_000, 40_000), fam_malformed),
         ]
